@@ -102,8 +102,8 @@ func (p *Proxy) SetFault(idx int, f Fault) {
 }
 
 // Count returns the number of request frames received so far.
-func (p *Proxy) Count() int { p.mu.Lock(); defer p.mu.Unlock(); return p.n }
-func (p *Proxy) Fired() int { p.mu.Lock(); defer p.mu.Unlock(); return p.fired }
+func (p *Proxy) Count() int  { p.mu.Lock(); defer p.mu.Unlock(); return p.n }
+func (p *Proxy) Fired() int  { p.mu.Lock(); defer p.mu.Unlock(); return p.fired }
 func (p *Proxy) Alive() bool { p.mu.Lock(); defer p.mu.Unlock(); return p.alive }
 func (p *Proxy) RawLog() []uint64 {
 	p.mu.Lock()
